@@ -427,7 +427,8 @@ verdict_t check_lsearch(const lcase_t& c, ctx_t& ctx)
     //  - descent direction, iteration budget at its default or larger (lemarechal cannot even accept its first trial with 1);
     //  - CG_DESCENT with c1 < 1/2 (the approximate Wolfe conditions of the method are only defined there);
     //  - some admissible step (inside [stpmin, stpmax] with a factor 16 to spare) satisfies the advertised conditions:
-    //    Armijo <=> t <= 2(1-c1)t*, Wolfe <=> t >= (1-c2)t*, strong Wolfe additionally t <= (1+c2)t*.
+    //    Armijo <=> t <= 2(1-c1)t*, Wolfe <=> t >= (1-c2)t*, strong Wolfe additionally t <= (1+c2)t*, and the set of such
+    //    steps is at least 16 stpmin wide;
     //  - initial step as quantified by the property: in [1e-3,1e3] or non-finite (zero / negative guesses are clamped to
     //    stpmin = 10 eps, from where a search would have to grow the step through pure rounding noise);
     bool p4 = quadratic && descent && c.max_iterations >= 128 && line_h > 0.0L && c.t0kind <= 3;
@@ -437,7 +438,10 @@ verdict_t check_lsearch(const lcase_t& c, ctx_t& ctx)
         const ld   lo     = c.lsearchk == "backtrack" ? 0.0L : (1.0L - static_cast<ld>(c.c2)) * line_tstar;
         const ld   hi     = std::min(2.0L * (1.0L - static_cast<ld>(c.c1)), strong ? 1.0L + static_cast<ld>(c.c2) : 2.0L) * line_tstar;
         const bool cg_out = c.lsearchk == "cgdescent" && !(c.c1 < 0.5);
-        const bool reach  = hi >= 16.0L * static_cast<ld>(nano::lsearchk_t::stpmin()) && lo <= static_cast<ld>(nano::lsearchk_t::stpmax()) / 16.0L;
+        // ... and the interval of acceptable steps is wider than the absolute step resolution of the searches (fletcher's zoom
+        // stops at |lo - hi| <= eps, CG_DESCENT at b - a <= stpmin)
+        const bool reach  = hi >= 16.0L * static_cast<ld>(nano::lsearchk_t::stpmin()) && lo <= static_cast<ld>(nano::lsearchk_t::stpmax()) / 16.0L &&
+                           hi - lo >= 16.0L * static_cast<ld>(nano::lsearchk_t::stpmin());
         ctx.label_if(cg_out, "quadratic:cgdescent-with-c1>=0.5-outside-the-method");
         ctx.label_if(!reach, "quadratic:no-admissible-step-satisfies-the-conditions");
         p4 = !cg_out && reach;
